@@ -188,6 +188,30 @@ def cases(ctx):
                 hist = [{"src": (usermap + src) if hr == "user" else src, "rom": None if hr == "user" else hr, "files": {}}]
                 out.append({"kind": f"cross-map:{hr}:{pr}", "rom": pr, "src": src, "files": {}, "history": hist,
                             "count_empty": True, "spec": {"t": "twin", "labels": True}})
+    # the same main text assembled before, when a file it includes (or reads) had another content: the files are read anew
+    main = "*=0x008000\nstart:\n.include 'lib.s'\n.incbin 'blob.bin'\n.table 'tt.tbl'\n.text 'ab'\nend:\n.dl end\n"
+    versions = [{"lib.s": "nop\nlda.b #1\n", "blob.bin": [1, 2, 3], "tt.tbl": {"tbl": [("a", [1]), ("b", [2])]}},
+                {"lib.s": "rts\n", "blob.bin": [9], "tt.tbl": {"tbl": [("a", [7, 7]), ("b", [8])]}},
+                {"lib.s": "lda (1\n", "blob.bin": [1, 2, 3], "tt.tbl": {"tbl": [("a", [1]), ("b", [2])]}},
+                {"lib.s": ".dw zz_nowhere\n", "blob.bin": [], "tt.tbl": {"tbl": [("ab", [5])]}}]
+    for i, old_files in enumerate(versions):
+        for j, new_files in enumerate(versions):
+            if i != j:
+                out.append({"kind": f"rewritten-files:{i}:{j}", "rom": "low", "src": main, "files": new_files,
+                            "history": [{"src": main, "files": old_files, "rom": "low"}], "count_empty": True,
+                            "spec": {"t": "twin", "labels": True}})
+    # interpreter-wide state sized by an earlier source (recursion limit, caches keyed by object identity): a long flat
+    # source first, then a short but deeply recursive one; many multi-operator expressions first, then other ones
+    flat = "*=0x008000\n" + "".join(f".db {i & 255}, {(i * 7) & 255}, {(i * 13) & 255}\n" for i in range(400))
+    deep = "*=0x018000\n.macro zz_cd(n) {\n.db n & 0xFF\n.if n {\nzz_cd(n - 1)\n}\n}\nzz_cd(400)\n"
+    mid = "*=0x018000\n.macro zz_cd(n) {\n.db n & 0xFF\n.if n {\nzz_cd(n - 1)\n}\n}\nzz_cd(120)\n"
+    exprs_a = "*=0x008000\nfirst := 3\nsecond := 5\n" + "".join(f".dw first * {i} + second * 3 + {i}, (first + {i}) * (second - 1) + 2\n" for i in range(1, 40))
+    exprs_b = "*=0x028000\nalpha := 7\nbeta := 2\n" + "".join(f".dw alpha - {i} - beta - 1, alpha * beta * {i} + 1, (({i} + alpha) & 0xFF) + (beta << 8)\n" for i in range(1, 40))
+    for hist, probe in (([flat], deep), ([flat], mid), ([flat, flat], deep), ([exprs_a], exprs_b), ([exprs_a, flat], exprs_b),
+                        ([exprs_b], exprs_a), ([exprs_a, exprs_a], exprs_a), ([deep], mid), ([mid], deep)):
+        out.append({"kind": "interpreter-state", "rom": "low", "src": probe, "files": {},
+                    "history": [{"src": h, "files": {}, "rom": "low"} for h in hist], "count_empty": True,
+                    "spec": {"t": "twin", "labels": True}})
     for i in range(n):
         history = []
         for _ in range(rng.randrange(1, 9)):
